@@ -851,6 +851,28 @@ func (t *glTr) stmt(ind int, s ast.Stmt) {
 		if t.ifLookup(ind, x) {
 			return
 		}
+		if as, ok := x.Init.(*ast.AssignStmt); ok && len(as.Rhs) == 1 {
+			if _, isTA := as.Rhs[0].(*ast.TypeAssertExpr); isTA {
+				// `if v, ok := x.(T); ok && v.M() { … }`: the whole test is one outside fact (Tuples)
+				key := glSrc(x.Init) + "; " + glSrc(x.Cond)
+				tup, ok := t.fn.Tuples[key]
+				if !ok || len(tup) != 1 {
+					t.die(x, "type test %q (add it to Tuples)", key)
+				}
+				t.line(ind, "if %s then", tup[0])
+				t.block(ind+1, x.Body.List)
+				if x.Else != nil {
+					t.line(ind, "else")
+					switch el := x.Else.(type) {
+					case *ast.BlockStmt:
+						t.block(ind+1, el.List)
+					default:
+						t.stmt(ind+1, el)
+					}
+				}
+				return
+			}
+		}
 		var ifLocals []string
 		defer func() {
 			for _, n := range ifLocals {
@@ -1070,6 +1092,19 @@ func (t *glTr) assign(ind int, x *ast.AssignStmt) {
 		t.line(ind, "%s := %s", t.nm(n), glBind(c, p))
 		return
 	}
+	if len(x.Lhs) == 2 && len(x.Rhs) == 1 && x.Tok == token.DEFINE {
+		if ie, ok := x.Rhs[0].(*ast.IndexExpr); ok && t.mapKind(ie.X) == "fun" {
+			// v, ok := m[k] where the map is given as a lookup function k ↦ Option _ : v is the Option, ok its isSome
+			m, _ := t.expr(ie.X)
+			k, pk := t.expr(ie.Index)
+			v, okn := glText(x.Lhs[0]), glText(x.Lhs[1])
+			t.define(x, v)
+			t.define(x, okn)
+			t.line(ind, "let %s := (%s %s)", t.nm(v), m, glBind(k, pk))
+			t.line(ind, "let %s := (Option.isSome %s)", t.nm(okn), t.nm(v))
+			return
+		}
+	}
 	if len(x.Lhs) > 1 && len(x.Rhs) == 1 {
 		var parts []string
 		if tup, ok := t.fn.Tuples[glSrc(x.Rhs[0])]; ok {
@@ -1250,6 +1285,17 @@ func (t *glTr) assigned(nodes ...ast.Node) []string {
 			continue
 		}
 		ast.Inspect(nd, func(n ast.Node) bool {
+			if st, ok := n.(ast.Stmt); ok {
+				if rw, ok := t.fn.Rewrite[glSrc(st)]; ok {
+					for _, l := range strings.Split(rw, "\n") {
+						f := strings.Fields(l)
+						if len(f) >= 2 && (f[1] == ":=" || f[1] == "←") {
+							add(f[0])
+						}
+					}
+					return false
+				}
+			}
 			switch x := n.(type) {
 			case *ast.AssignStmt:
 				for _, l := range x.Lhs {
@@ -1990,6 +2036,24 @@ func extractGoLean() {
 		Funcs: []glFunc{
 			{File: "logger/text_handler.go", Name: "appendTextString", Args: "(P : Glb.TextHandler.Std) (buf : Bytes) (str : Bytes)", Ret: "Bytes", Ptr: ptrBuf, Env: tables,
 				Libs: textLibs, Fuel: map[int]string{0: "(Glb.Go.len str + 1).toNat"}},
+		},
+	})
+
+	// TrArgs (C10): the command-line scanner. The flag table (f.flagMap + the boolFlag type test) is the
+	// parameter `lookup : name ↦ some isBool`; `flg.ArgValue = &argValue` is recorded in program order.
+	glTranslate(glUnit{
+		Module: "TrArgs", NS: "Glb.Tr.Config",
+		Funcs: []glFunc{
+			{File: "config/config.go", Recv: "FlagSet", Name: "argParse",
+				Args: "(lookup : Bytes → Option Bool) (args : List Bytes) (assigns : List (Bytes × Bytes))",
+				Ret:  "(List Bytes × List (Bytes × Bytes) × Option Bytes)",
+				Env:  map[string]string{"f.args": "args", "f.flagMap": "lookup", "nil": "none"},
+				Ptr:  map[string]bool{"f.args": true}, Thread: []string{"args", "assigns"},
+				MapFields: map[string]string{"flagMap": "fun"},
+				Libs:      map[string]glLib{"errors.New": {"some", true, 1}},
+				Tuples:    map[string][]string{"fv, ok := flg.Value.(boolFlag); ok && fv.IsBoolFlag()": {"(Option.getD flg false)"}},
+				Rewrite:   map[string]string{"flg.ArgValue = &argValue": "assigns := assigns ++ [(name, argValue)]"},
+				Fuel:      map[int]string{0: "(Glb.Go.len args + 1).toNat"}},
 		},
 	})
 }
